@@ -127,6 +127,12 @@ def of_py(v):
     raise TypeError(f"not a JSON value: {type(v).__name__}")
 
 
+def normal(t):
+    """the normal transport form of a value (what `of_py` gives for the Python value): a chain absorbs every
+    single-member container below it, long repetitive strings are compact, …"""
+    return of_py(to_py(t))
+
+
 def floats_of(v):
     stack = [v]
     while stack:
@@ -475,6 +481,41 @@ def directed_hardening():
     return out
 
 
+SYNTAX_TOKENS = ["NaN", "Infinity", "-Infinity", "null", "true", "false", "1.0", "-0", "1e400", "nan", "inf"]
+
+
+def syntax_texts(rng, n):
+    """strings that LOOK like pieces of an encoded document: renderings of small values in both encoders' styles with
+    JSON / near-JSON tokens at every value position, bare and cut at either end, plus event-stream and header
+    look-alikes.  Used as string values and as object keys."""
+    out = ["[NaN]", "[Infinity]", "[-Infinity]", "values=[1.0, NaN, 3.0]", "mean:NaN,std:Infinity}", "limits,Infinity,", ": NaN,", ":NaN}",
+           ", NaN]", "{\"a\": NaN}", "{\"a\":Infinity}", "[1, -Infinity, 2]", "[null]", "[ NaN ]", "x,NaN,y", "a:Infinity]", "NaN,", ",NaN", "[NaN", "NaN]",
+           "data: {\"a\": 1}", "event: message", "id: 7", "retry: 10", ": comment", "data:", "\ndata: x\n\n", "Content-Length: 3\r\n\r\n{}",
+           "{\"jsonrpc\": \"2.0\", \"id\": 1, \"result\": {}}", "\\u0000", "\\\"", "\",\"", "\":\"", "\"}", "{\"", "*/", "<!--", "${x}", "#{x}"]
+    seps = [(", ", ": "), (",", ":"), (" , ", " : ")]
+    for _ in range(n):
+        item_sep, key_sep = rng.choice(seps)
+
+        def go(d):
+            r = rng.random()
+            if d <= 0 or r < 0.45:
+                return rng.choice(SYNTAX_TOKENS + ["1", "\"s\"", "\"\""])
+            if r < 0.75:
+                return "[" + item_sep.join(go(d - 1) for _ in range(rng.randrange(0, 4))) + "]"
+            return "{" + item_sep.join('"' + rng.choice(["a", "k", "NaN", ""]) + '"' + key_sep + go(d - 1) for _ in range(rng.randrange(0, 3))) + "}"
+
+        t = go(rng.choice([1, 2, 3]))
+        cut = rng.random()
+        if cut < 0.2:
+            t = t[1:]
+        elif cut < 0.4:
+            t = t[:-1]
+        elif cut < 0.5:
+            t = rng.choice(["x=", "values="]) + t
+        out.append(t)
+    return out
+
+
 def render_foreign(t, rng):
     """one of the many other RFC 8259 texts of a value (transport form, no floats): arbitrary whitespace
     between tokens, any legal escape for any character"""
@@ -544,7 +585,7 @@ def chain(kind, d, inner, key="k"):
         levels = [cps(key)] * d
     else:
         levels = [(0 if i % 2 else cps(key)) for i in range(d)]
-    return {"nest": [levels, inner]} if d >= NEST_MIN else of_py(to_py({"nest": [levels, inner]}))
+    return normal({"nest": [levels, inner]})
 
 
 def directed_limits(max_depth):
@@ -624,7 +665,7 @@ def shrink_value(t):
         if any(lv != 0 for lv in levels):
             yield {"nest": [[0] * n, inner]}
         for y in shrink_value(inner):
-            yield {"nest": [levels, y]}
+            yield normal({"nest": [levels, y]})
         return
     if "arange" in t or "orange" in t:
         k = "arange" if "arange" in t else "orange"
